@@ -154,9 +154,15 @@ class Assignment(Statement):
         get_deps = self.get_dependency_mapper()
 
         def get_vars(expr):
-            return frozenset(dep.name for dep in get_deps(self.rhs))
+            return frozenset(dep.name for dep in get_deps(expr))
 
-        result = get_vars(self.rhs) | get_vars(self.lhs)
+        result = get_vars(self.rhs)
+
+        # the assigned name is written, not read; the index of a subscripted
+        # lhs is read
+        from pymbolic.primitives import Subscript
+        if isinstance(self.lhs, Subscript):
+            result = result | get_vars(self.lhs.index)
 
         return result
 
